@@ -75,6 +75,40 @@ def Vals.ofList : List Val → Vals
   | [] => .nil
   | v :: r => .cons v (Vals.ofList r)
 
+/-! ### the types' own `==`
+
+Plain fields, enum payloads and nested values are compared with the user type's `PartialEq`, which need not be
+identity: the model's atoms include two float-like codes, `negZero` (`-0.0`, `==` to `0`) and `nanCode` (`NaN`, `!=`
+to everything including itself).  `veq` is the derived structural `==` over universal values.  Collection elements
+and map keys (which need `Hash + Eq`) are ordinary atoms. -/
+
+def negZero : Nat := 1000001
+def nanCode : Nat := 999999
+def canonAtom (n : Nat) : Nat := if n = negZero then 0 else n
+/-- `==` on atoms: a partial equivalence relation (symmetric, transitive), reflexive except on `nanCode` -/
+def eqAtom (a b : Nat) : Bool := a != nanCode && b != nanCode && canonAtom a == canonAtom b
+
+mutual
+/-- derived `PartialEq` -/
+def veq : Val → Val → Bool
+  | .atom a, .atom b => eqAtom a b
+  | .list a, .list b => a == b
+  | .pairs a, .pairs b => a == b
+  | .strct a, .strct b => veqs a b
+  | .onone, .onone => true
+  | .osome a, .osome b => veq a b
+  | .rmap a, .rmap b => veqm a b
+  | _, _ => false
+def veqs : Vals → Vals → Bool
+  | .nil, .nil => true
+  | .cons a as, .cons b bs => veq a b && veqs as bs
+  | _, _ => false
+def veqm : RMapV → RMapV → Bool
+  | .nil, .nil => true
+  | .cons k a as, .cons k' b bs => k == k' && veq a b && veqm as bs
+  | _, _ => false
+end
+
 /-- one entry of a generated `Diff` enum: the variant's payload.  `nested` lists are `Vec<Inner::Diff>`. -/
 inductive Payload where
   | val (v : Val)                                            -- plain field: the new value;  enum: `Replace(v)`
@@ -121,6 +155,7 @@ structure FieldSem where
   diffRef : Val → Val → Option Payload             -- the `diff_ref` body fragment, then the `Into` arm
   apply : Val → Payload → Except String Val        -- the `apply_single` arm(s) for this field
   setter : Val → Val → Option (Option Payload)     -- setter body: `none` = no setter is generated for this template
+  setterKeeps : Val → Val → Bool                   -- the setter returns BEFORE assigning (`if self.f == value {return None}`)
 
 abbrev Fields := List (Bool × FieldSem)            -- (skip?, template) in declaration order
 
@@ -131,31 +166,33 @@ def costs : Lev.Costs := ⟨Gen.deleteCost, Gen.replaceCost, Gen.insertCost⟩
 
 /-- (false, None, _) : `if self.f != updated.f { push(f(updated.f.clone())) }` / `self.f = v` -/
 def plainField : FieldSem where
-  diff a b := if a ≠ b then some (.val b) else none
-  diffRef a b := if a ≠ b then some (.val b) else none
+  diff a b := if veq a b then none else some (.val b)
+  diffRef a b := if veq a b then none else some (.val b)
   apply _ p := match p with
     | .val v => .ok v
     | _ => .error "payload does not belong to this field"
-  setter old v := some (if old = v then none else some (.val v))
+  setter old v := some (if veq old v then none else some (.val v))
+  setterKeeps old v := veq old v
 
 /-- (true, None, false) : `if &self.f != &updated.f { push(f(self.f.diff(&updated.f))) }` / `self.f = self.f.apply_ref(d)` -/
 def recurseField (S : TySem) : FieldSem where
-  diff a b := if a ≠ b then some (.nested (S.diff a b)) else none
-  diffRef a b := if a ≠ b then some (.nested (S.diffRef a b)) else none
+  diff a b := if veq a b then none else some (.nested (S.diff a b))
+  diffRef a b := if veq a b then none else some (.nested (S.diffRef a b))
   apply x p := match p with
     | .nested es => S.applyRef x es
     | _ => .error "payload does not belong to this field"
-  setter old v := some (if old = v then none else some (.nested (S.diff old v)))
+  setter old v := some (if veq old v then none else some (.nested (S.diff old v)))
+  setterKeeps old v := veq old v
 
 /-- (true, None, true) : `Option<Inner>` with `recurse` -/
 def recurseOptField (S : TySem) : FieldSem where
   diff a b := match a, b with
-    | .osome x, .osome y => if x ≠ y then some (.optSome (S.diff x y)) else none
+    | .osome x, .osome y => if veq x y then none else some (.optSome (S.diff x y))
     | .osome _, .onone => some .optNone
     | .onone, .osome y => some (.full y)
     | _, _ => none
   diffRef a b := match a, b with
-    | .osome x, .osome y => if x ≠ y then some (.optSome (S.diffRef x y)) else none
+    | .osome x, .osome y => if veq x y then none else some (.optSome (S.diffRef x y))
     | .osome _, .onone => some .optNone
     | .onone, .osome y => some (.full y)
     | _, _ => none
@@ -169,12 +206,13 @@ def recurseOptField (S : TySem) : FieldSem where
     | .full v => .ok (.osome v)
     | _ => .error "payload does not belong to this field"
   setter old v := some (
-    if old = v then none else
+    if veq old v then none else
     match old, v with
-    | .osome x, .osome y => if x ≠ y then some (.optSome (S.diff x y)) else none
+    | .osome x, .osome y => if veq x y then none else some (.optSome (S.diff x y))
     | .osome _, .onone => some .optNone
     | .onone, .osome y => some (.full y)
     | _, _ => none)
+  setterKeeps old v := veq old v
 
 def asList : Val → List Nat
   | .list l => l
@@ -198,6 +236,7 @@ def orderedField : FieldSem where
       | .error m => .error m
     | _ => .error "payload does not belong to this field"
   setter old v := some ((Lev.hirschberg eqNat costs Gen.levCutoff (asList v) (asList old)).map .script)
+  setterKeeps _ _ := false
 
 /-- unordered_array_like -/
 def unordField : FieldSem where
@@ -207,6 +246,7 @@ def unordField : FieldSem where
     | .uarr d => .ok (.list (UArr.apply (asList x) d))
     | _ => .error "payload does not belong to this field"
   setter old v := some ((UArr.hashcmp Gen.fewMax (asList old) (asList v)).map .uarr)
+  setterKeeps _ _ := false
 
 /-- collecting `(k, v)` pairs back into a map container: one entry per key.  (`apply_unordered_hashdiffs` yields every
 pair `count` times; on a base that is not the one the diff was computed from a count can exceed 1; the copies are
@@ -225,10 +265,11 @@ def mapField (keyOnly : Bool) : FieldSem where
     | .umap d => .ok (.pairs (dedupKeys (UMap.apply (asPairs x) d)))
     | _ => .error "payload does not belong to this field"
   setter old v := some ((UMap.hashcmp (asPairs old) (asPairs v) keyOnly).map .umap)
+  setterKeeps _ _ := false
 
 /-- total version of the nested `apply_mut` used inside the recursive map (a nested panic is recorded) -/
 def nestedOf (S : TySem) : RMap.Nested Val (List (Nat × Payload)) where
-  veq a b := a == b
+  veq a b := veq a b
   diff a b := S.diffRef a b
   applyMut v d := match S.applyMut v d with
     | .ok r => r
@@ -256,6 +297,7 @@ def recMapField (keyOnly : Bool) (S : TySem) : FieldSem where
       else .ok (.rmap (RMapV.ofList (RMap.apply (nestedOf S) (asRMap x) d)))
     | _ => .error "payload does not belong to this field"
   setter old v := if keyOnly then some ((RMap.hashcmp (nestedOf S) (asRMap old) (asRMap v) true).map .rmap) else none
+  setterKeeps _ _ := false
 
 /-! ### a struct: the generated `diff`, `diff_ref`, `apply_single` -/
 
@@ -297,8 +339,8 @@ def structSem (fs : Fields) : TySem where
 
 /-- an enum: `if self == updated { vec![] } else { vec![Replace(updated.clone())] }` / `*self = variant` -/
 def enumSem : TySem where
-  diff a b := if a = b then [] else [(0, .val b)]
-  diffRef a b := if a = b then [] else [(0, .val b)]
+  diff a b := if veq a b then [] else [(0, .val b)]
+  diffRef a b := if veq a b then [] else [(0, .val b)]
   applySingle _ e := match e with
     | (0, .val v) => .ok v
     | _ => .error "no such variant"
@@ -339,6 +381,7 @@ def setAt : Vals → Nat → Val → Vals
   | .cons v vs, i+1, w => .cons v (setAt vs i w)
 
 /-- calling the generated setter of field `i` with `value` : (returned `Option<Diff>`, new receiver).
+Plain and nested setters compare first and return before assigning when the old value is `==` to the given one.
 `none` when no setter exists for that field's template / the field is skipped. -/
 def setterCall (fs : Fields) (x : Val) (i : Nat) (value : Val) : Option (Option Entry × Val) :=
   match x, fieldAt fs i with
@@ -346,7 +389,7 @@ def setterCall (fs : Fields) (x : Val) (i : Nat) (value : Val) : Option (Option 
     match valAt vs i with
     | some old =>
       match F.setter old value with
-      | some ret => some (ret.map (fun p => (i, p)), .strct (setAt vs i value))
+      | some ret => some (ret.map (fun p => (i, p)), .strct (setAt vs i (if F.setterKeeps old value then old else value)))
       | none => none
     | none => none
   | _, _ => none
